@@ -55,18 +55,19 @@ def gen_cases(rng, tier):
                         cases.append({'id': 'c05-grid-%d' % i, 'cfg': cfg, 'hist': toks, 'sub': 'lsim',
                                       'tags': {'variant': variant, 'H': H, 'tt': tt, 'conc': conc}})
                         i += 1
-    # every variant under its short name (the alias table is read from parser/src/cfg/list_actions.rs): the same schedule must give
-    # the same trace as under the long name
-    import re, os
-    src = open('/repo/parser/src/cfg/list_actions.rs', encoding='utf-8').read()
-    consts = dict(re.findall(r'pub const (\w+): &str = "([^"]*)";', src))
-    alias = {consts[k[:-2]]: v for k, v in consts.items() if k.endswith('_A') and k[:-2] in consts}
+    # every variant under its documented short name (docs/config.adoc, "tap-hold-press or tap⬓↓" ...): the same schedule must give the
+    # same trace as under the long name; the pairs are read from the documentation, not from the parser's own table
+    import re
+    doc = open('/repo/docs/config.adoc', encoding='utf-8').read()
+    alias = {}
+    for a, b in re.findall(r'`\+?(tap-hold[a-z-]*)\+?` or `\+?(tap⬓[^`+ ]*)\+?`', doc):
+        alias.setdefault(a, b)
     j = 0
     for variant in VARIANTS:
         if variant not in alias:
             continue
         for H in (5, 20):
-            for toks in schedules(rng, 7, H, 6 if tier == 'quick' else 100):
+            for toks in schedules(rng, 7, H, 40 if tier == 'quick' else 300):
                 for nm, role in ((variant, 'long'), (alias[variant], 'short')):
                     cases.append({'id': 'c05-alias-%d-%s' % (j, role), 'cfg': th_cfg(nm, 0, H, False, shape=variant), 'hist': toks, 'sub': 'lsim',
                                   'alias_pair': 'c05-alias-%d' % j, 'role': role, 'tags': {'variant': variant, 'H': H, 'spelling': role}})
